@@ -51,11 +51,12 @@ def check(run):
             multi += 1
             kinds["multi"] = kinds.get("multi", 0) + 1
     # an UNEXPECTED reply: decodable, a member of the exchange's reply set, but not what this exchange may be answered with — the
-    # query for a dangling pre-authorisation answered by an intermediate status / a completion (the client's UnexpectedPacket).
+    # query for a dangling pre-authorisation answered by a completion / a status information (the client's UnexpectedPacket).
     # The exchange ends there; whatever the terminal still sends must not be read as the replies to the next command: the next
     # operation runs on a NEW connection.
-    for unwanted, tail_packets in ((S.intermediate(), [S.pr_abort(0xb8, 0xFFFF)]), (S.intermediate(0x0a), []),
-                                   (S.completion(), []), (S.status_info({0x27: 0}), [S.completion()])):
+    # (progress reports — intermediate status, print lines — in front of the answer are passed over since the fix of F17: C20)
+    for unwanted, tail_packets in ((S.completion(), []), (S.status_info({0x27: 0}), [S.completion()]),
+                                   (S.status_info({0x27: 0, 0x87: 17}), [S.intermediate(), S.pr_abort(0xb8, 0xFFFF)])):
         for first_op in ("configure", "cancel"):
             sc = cc.Scenario(S, {"max": 2}).start(); cfg = sc.cfg
             if first_op == "configure":
